@@ -109,6 +109,16 @@ class SymCtx(object):
             E.add(digs.c[0] != 48)
         return SDecimal(neg.z, digs, exp)
 
+    def mkdict(self, pairs):
+        from .shim import SDict
+        d = SDict()
+        for k, v in pairs:
+            if isinstance(k, Sym):
+                d._sk.append(k); d._sv.append(v)     # keys are assumed pairwise distinct by the harness
+            else:
+                d[k] = v
+        return d
+
     def offset_minutes(self, dt):
         from .stdmodels import tz_minutes
         if isinstance(dt, Sym):
